@@ -186,7 +186,9 @@ def prop_value_domain(name, wire_type):
     if name == 'delivery_mode':
         return [1, 2]
     if name == 'priority':
-        return [0, 1, 2, 9, 255]
+        return [0, 1, 2, 9, 255] + ([v for v in range(256) if v not in
+                                     (0, 1, 2, 9, 255)] if DENSE_PROPS
+                                    else [])
     if name == 'cluster_id':
         return ['']
     if wire_type == 'shortstr':
@@ -201,6 +203,7 @@ def prop_value_domain(name, wire_type):
     raise ValueError(wire_type)
 
 
+DENSE_PROPS = False
 SETTABLE = [p for p in spec_table.PROPERTIES if p[0] != 'cluster_id']
 
 
@@ -365,6 +368,7 @@ def _others_subsets(idx, tier):
 
 def header_tasks(tier):
     out = [('subsets', s, s + 512) for s in range(0, 1 << NSET, 512)]
+    out += [('dense-props',)]
     out += [('alts', i) for i in range(NSET)]
     out += [('pairs', i) for i in range(NSET)]
     out += [('unset',), ('sizes',)]
@@ -380,6 +384,26 @@ def header_cases(task, tier, seed=0):
             yield (props_for_subset(mask),
                    sizes[(mask + seed) % len(sizes)],
                    chans[(mask // 7 + seed) % len(chans)])
+    elif kind == 'dense-props':
+        # interior values: every priority, every string length 0..255 for
+        # every string property, timestamps at every power of two +-1
+        for v in range(256):
+            yield {'priority': v}, v, v
+            yield {'priority': v, 'delivery_mode': 1 + v % 2,
+                   'app_id': 'a' * (v % 17)}, 1, 1
+        strs = [n for n, t, _b in SETTABLE if t == 'shortstr']
+        for n in range(0, 256):
+            name = strs[n % len(strs)]
+            yield {name: 'x' * n}, n, 1
+            other = strs[(n + 3) % len(strs)]
+            yield {name: 'é' * (n // 2), other: 'y' * (255 - n)}, 2, 2
+        for k in range(0, 32):
+            for d in (-1, 0, 1):
+                t = 2**k + d
+                if 0 <= t <= 2**32 - 1:
+                    yield {'timestamp': A.dt(t)}, t, 3
+        for n in range(0, 200):
+            yield {'headers': {'k%03d' % i: 'v' * i for i in range(n)}}, n, 4
     elif kind == 'alts':
         idx = task[1]
         name, wire_type, _b = SETTABLE[idx]
@@ -510,3 +534,113 @@ def disturb():
             attempt()
         except Exception:  # noqa
             pass
+
+
+# ---------------------------------------------------------------------------
+# Dense sweeps: interior values, every length / count / value of a range (not
+# only the boundaries), one representative argument per wire type.
+
+DENSE_KINDS = ['octet', 'short', 'long', 'longlong', 'shortstr-ascii',
+               'shortstr-2byte', 'shortstr-mixed', 'longstr', 'table-count',
+               'table-strlen', 'array-count', 'channel']
+
+
+def _around(points, radius):
+    out = set()
+    for p in points:
+        out.update(range(max(0, p - radius), p + radius + 1))
+    return sorted(out)
+
+
+def dense_tasks(tier):
+    out = []
+    for kind in DENSE_KINDS:
+        if kind == 'short' or kind == 'channel':
+            out += [(kind, lo, lo + 8192) for lo in range(0, 65536, 8192)]
+        else:
+            out.append((kind, 0, 0))
+    return out
+
+
+def dense_cases(task, tier):
+    """Yield (method, vec, channel) for one dense task."""
+    kind, lo, hi = task
+    M = spec_table.BY_NAME
+    thorough = tier == 'thorough'
+    if kind == 'octet':
+        m = M['Connection.Start']
+        for v in range(256):
+            for w in (0, 255 - v):
+                yield m, (v, w, None, 'PLAIN', 'en_US'), 0
+    elif kind == 'short':
+        m = M['Connection.Tune']
+        for v in range(lo, hi):
+            yield m, (v, 0, 65535 - v), 1
+    elif kind == 'channel':
+        m = M['Basic.Ack']
+        for ch in range(lo, hi):
+            yield m, (ch, ch % 2 == 0), ch
+    elif kind == 'long':
+        m = M['Connection.Tune']
+        dense = 300000 if thorough else 70000
+        for v in list(range(0, dense)) + _around(
+                [2**k for k in range(17, 33)], 40):
+            if v <= 2**32 - 1:
+                yield m, (0, v, 0), 1
+    elif kind == 'longlong':
+        m = M['Basic.Ack']
+        dense = 300000 if thorough else 70000
+        for v in list(range(0, dense)) + _around(
+                [2**k for k in range(17, 64)], 20):
+            if v <= 2**63 - 1:
+                yield m, (v, False), 1
+    elif kind == 'shortstr-ascii':
+        m = M['Basic.Publish']
+        for n in range(0, 256):
+            yield m, (0, '', 'r' * n, n % 2 == 0, n % 3 == 0), 1
+    elif kind == 'shortstr-2byte':
+        m = M['Basic.Publish']
+        for n in range(0, 128):
+            yield m, (0, '', 'é' * n, False, False), 1
+            yield m, (0, '', 'a' + 'é' * n, False, False), 1
+        for n in range(0, 86):
+            yield m, (0, '', '€' * n, False, False), 1
+        for n in range(0, 64):
+            yield m, (0, '', '\U0001F600' * n, False, False), 1
+    elif kind == 'shortstr-mixed':
+        m = M['Queue.Bind']
+        # three strings of a frame together: every total split of 0..40
+        for a in range(0, 41, 1):
+            for b in (0, 1, 7, 8, 9, 31, 32, 33):
+                yield m, (0, 'q' * a, 'e' * b, 'k' * ((a * 7 + b) % 61),
+                          False, None), 1
+    elif kind == 'longstr':
+        m = M['Connection.SecureOk']
+        lengths = list(range(0, 1100)) + _around(
+            [2**k for k in range(11, 18)], 12) + [100000]
+        if thorough:
+            lengths += list(range(1100, 9000, 7))
+        for n in lengths:
+            yield m, ('s' * n,), 1
+        for n in list(range(0, 300)):
+            yield m, ('é' * n,), 1
+    elif kind == 'table-count':
+        m = M['Queue.Declare']
+        top = 1200 if thorough else 400
+        for n in range(0, top):
+            t = {'k%04d' % i: i for i in range(n)}
+            yield m, (0, 'q', False, False, False, False, False, t), 1
+    elif kind == 'table-strlen':
+        m = M['Queue.Declare']
+        for n in list(range(0, 600)) + _around([4096, 65536], 8):
+            t = {'s': 'v' * n, 'x': bytearray(b'\xce' * (n % 97))}
+            yield m, (0, 'q', False, False, False, False, False, t), 1
+        for n in range(0, 129):
+            yield m, (0, 'q', False, False, False, False, False,
+                      {'k' * n: n, 'é' * (n // 2): None}), 1
+    elif kind == 'array-count':
+        m = M['Queue.Declare']
+        top = 1200 if thorough else 400
+        for n in range(0, top):
+            t = {'a': [i - n // 2 for i in range(n)], 'b': [[]] * (n % 9)}
+            yield m, (0, 'q', False, False, False, False, False, t), 1
